@@ -1,9 +1,311 @@
-From Coq Require Import List Arith ZArith Bool.
+(* C07 — SourceCatalog measurements equal their definitions on the segment pixels.
+   Property theorems only; each is closed by [exact] of a lemma of C07_Proofs.
+
+   Vocabulary (C07_Model / C07_Proofs):
+     inputs                 the arrays of one catalog as functions (row y, column x) -> value:
+                            segmentation, data, optional convolved data / error / background / mask;
+                            [None] is a non-finite pixel
+     mkrow ny nx own det l  the code-mirroring model of the row of label [l] (cutouts on the tight
+                            box, total mask, zeroed moment cutout, compressed values, delegation
+                            of the [use_detcat] quantities to the arrays [det])
+     lab_pixels ny nx I l   the pixels of the ny x nx image carrying label [l], row-major order
+     g_S L dat msk          S_l: the pixels of L that are unmasked and finite
+     g_mv cnv msk p         the clipped convolved value entering the moments (0 if masked,
+                            non-finite or negative)
+     def_row ny nx own det l  the row written directly on these whole-image pixel sets ([build]):
+                            sums, counts, extrema and moments over L and S_l, no cutout, no box *)
+From Coq Require Import List Arith ZArith Bool Permutation Sorted.
 From PV Require Import lib.Cases C07_Model C07_Proofs.
 Import ListNotations.
 
+(* ------------------------------------------------------------------ *)
+(* A. every quantity equals its defining formula on the label's pixels  *)
+(* ------------------------------------------------------------------ *)
+Theorem row_is_definition : forall ny nx own det l,
+  mkrow ny nx own det l = def_row ny nx own det l.
+Proof. exact mkrow_is_build. Qed.
+Print Assumptions row_is_definition.
+
+(* the pixel sets the definition ranges over *)
+Theorem label_pixels_spec : forall ny nx I l p,
+  In p (lab_pixels ny nx I l) <-> fst p < ny /\ snd p < nx /\ i_seg I (fst p) (snd p) = l.
+Proof. exact lab_in_seg. Qed.
+Print Assumptions label_pixels_spec.
+
+Theorem S_l_spec : forall L dat msk p,
+  In p (g_S L dat msk) <-> In p L /\ msk p = false /\ exists v, dat p = Some v.
+Proof. exact g_S_in. Qed.
+Print Assumptions S_l_spec.
+
+(* bounding box = the tight box of the label's pixels (all inside, every side touched) *)
+Theorem bbox_is_tight : forall ny nx own det l, lab_pixels ny nx det l <> [] ->
+  let '(xmin, xmax, ymin, ymax) := r_bbox (mkrow ny nx own det l) in
+  (forall p, In p (lab_pixels ny nx det l) ->
+     (ymin <= Z.of_nat (fst p) <= ymax /\ xmin <= Z.of_nat (snd p) <= xmax)%Z) /\
+  (exists p, In p (lab_pixels ny nx det l) /\ Z.of_nat (fst p) = ymin) /\
+  (exists p, In p (lab_pixels ny nx det l) /\ Z.of_nat (fst p) = ymax) /\
+  (exists p, In p (lab_pixels ny nx det l) /\ Z.of_nat (snd p) = xmin) /\
+  (exists p, In p (lab_pixels ny nx det l) /\ Z.of_nat (snd p) = xmax).
+Proof. exact bbox_tight. Qed.
+Print Assumptions bbox_is_tight.
+
+(* min_value / minval_index / cutout_minval_index: the least data value over S_l, at its FIRST
+   occurrence in row-major order; the cutout index is relative to the box origin *)
+Theorem min_value_is_first_minimum : forall ny nx own det l,
+  let S := g_S (lab_pixels ny nx own l) (dataat own) (maskat own) in
+  let r := mkrow ny nx own det l in
+  S <> [] ->
+  exists p v pre post, S = pre ++ p :: post /\ dataat own p = Some v /\
+    r_min r = Some v /\
+    r_minidx r = Some (Z.of_nat (fst p), Z.of_nat (snd p)) /\
+    r_cminidx r = Some (Z.of_nat (fst p) - Z.of_nat (by0 ny nx own l),
+                        Z.of_nat (snd p) - Z.of_nat (bx0 ny nx own l))%Z /\
+    (forall q, In q pre -> exists w, dataat own q = Some w /\ (v < w)%Z) /\
+    (forall q, In q post -> exists w, dataat own q = Some w /\ (v <= w)%Z).
+Proof. exact min_first. Qed.
+Print Assumptions min_value_is_first_minimum.
+
+Theorem max_value_is_first_maximum : forall ny nx own det l,
+  let S := g_S (lab_pixels ny nx own l) (dataat own) (maskat own) in
+  let r := mkrow ny nx own det l in
+  S <> [] ->
+  exists p v pre post, S = pre ++ p :: post /\ dataat own p = Some v /\
+    r_max r = Some v /\
+    r_maxidx r = Some (Z.of_nat (fst p), Z.of_nat (snd p)) /\
+    r_cmaxidx r = Some (Z.of_nat (fst p) - Z.of_nat (by0 ny nx own l),
+                        Z.of_nat (snd p) - Z.of_nat (bx0 ny nx own l))%Z /\
+    (forall q, In q pre -> exists w, dataat own q = Some w /\ (w < v)%Z) /\
+    (forall q, In q post -> exists w, dataat own q = Some w /\ (w <= v)%Z).
+Proof. exact max_first. Qed.
+Print Assumptions max_value_is_first_maximum.
+
+(* centroid = centre of mass of the clipped convolved values over the label's pixels, in image
+   coordinates: (sum x v / sum v, sum y v / sum v) as (numerator, denominator) pairs; NaN iff
+   the sum of the values is 0 *)
+Theorem centroid_is_center_of_mass : forall ny nx own det l,
+  let L := lab_pixels ny nx det l in
+  let mv := g_mv (convat det) (maskat det) in
+  let M := zsum (map mv L) in
+  r_centroid (mkrow ny nx own det l) =
+  if (M =? 0)%Z then None
+  else Some ((zsum (map (fun p => mv p * Z.of_nat (snd p)) L), M),
+             (zsum (map (fun p => mv p * Z.of_nat (fst p)) L), M))%Z.
+Proof. exact row_centroid. Qed.
+Print Assumptions centroid_is_center_of_mass.
+
+(* covariance: with (a, b, c) the numerators of (sigx2, sigxy, sigy2) over M^2,
+   M*a = sum v (M x - sum x v)^2, M*b = sum v (M x - ..)(M y - ..), M*c = sum v (M y - ..)^2
+   (central second moments, denominators cleared: [cm_xx], [cm_xy], [cm_yy]); the matrix is
+   positive semidefinite, so the 1/12 loop always terminates, after at most one step: the result
+   (numerators over 12 M^2) is the central-moment matrix, plus 1/12 on the diagonal exactly when
+   its determinant is below (1/12)^2.  It is never NaN for a source with M > 0. *)
+Theorem covariance_is_regularised_central_moments : forall ny nx own det l,
+  let L := lab_pixels ny nx det l in
+  let mv := g_mv (convat det) (maskat det) in
+  let M := zsum (map mv L) in
+  M <> 0%Z ->
+  forall a b c, b_covnum ny nx L mv = (a, b, c) ->
+  (0 < M /\ 0 <= a /\ 0 <= c /\ 0 <= a * c - b * b /\
+   M * a = cm_xx ny nx L mv /\ M * b = cm_xy ny nx L mv /\ M * c = cm_yy ny nx L mv /\
+   r_cov_den (mkrow ny nx own det l) = 12 * M * M /\
+   r_covariance (mkrow ny nx own det l) =
+   Some (if 144 * (a * c - b * b) <? M * M * (M * M)
+         then (12 * a + M * M, 12 * b, 12 * c + M * M) else (12 * a, 12 * b, 12 * c)))%Z.
+Proof. exact row_covariance. Qed.
+Print Assumptions covariance_is_regularised_central_moments.
+
+(* the loop itself, for arbitrary (also indefinite) matrices: it returns the first k with
+   det >= (1/12)^2, or runs out of fuel *)
+Theorem regularise_loop_spec : forall fuel d2 a b c r, regularise fuel d2 a b c = Some r ->
+  exists k : nat, k <= fuel /\
+    r = (a + Z.of_nat k * d2, b, c + Z.of_nat k * d2)%Z /\
+    (d2 * d2 <= (a + Z.of_nat k * d2) * (c + Z.of_nat k * d2) - b * b)%Z /\
+    forall j : nat, j < k -> ((a + Z.of_nat j * d2) * (c + Z.of_nat j * d2) - b * b < d2 * d2)%Z.
+Proof. exact regularise_spec. Qed.
+Print Assumptions regularise_loop_spec.
+
+(* ------------------------------------------------------------------ *)
+(* B. locality                                                          *)
+(* ------------------------------------------------------------------ *)
+(* If two sets of arrays have the same pixels of label [l] and agree on those pixels (data,
+   effective convolved data, mask, error, background; same presence of error/background), the
+   row of [l] is identical: everything else — other labels inside the bounding box, pixels
+   outside it, the segmentation of the other sources — is never read. *)
+Theorem row_local : forall ny nx own own' det det' l,
+  same_on_label ny nx own own' l -> same_on_label ny nx det det' l ->
+  mkrow ny nx own det l = mkrow ny nx own' det' l.
+Proof. exact row_local_proof. Qed.
+Print Assumptions row_local.
+
+(* ------------------------------------------------------------------ *)
+(* C. relabelling and row order                                         *)
+(* ------------------------------------------------------------------ *)
+Theorem relabel_invariant : forall ny nx own det l pi, (forall a, pi a = pi l -> a = l) ->
+  mkrow ny nx (relabel pi own) (relabel pi det) (pi l) = set_label (pi l) (mkrow ny nx own det l).
+Proof. exact relabel_row. Qed.
+Print Assumptions relabel_invariant.
+
 Theorem rows_follow_labels : forall ny nx own det labels,
-  catalog_rows ny nx own det labels =
-  map (mkrow ny nx own (match det with None => own | Some d => d end)) labels.
-Proof. exact rows_map. Qed.
+  map r_label (catalog_rows ny nx own det labels) = labels.
+Proof. exact rows_labels. Qed.
 Print Assumptions rows_follow_labels.
+
+(* the row at position i depends only on the label at position i *)
+Theorem row_position_independent : forall ny nx own det labels i l,
+  nth_error labels i = Some l ->
+  nth_error (catalog_rows ny nx own det labels) i =
+  Some (mkrow ny nx own (match det with None => own | Some d => d end) l).
+Proof. exact rows_nth. Qed.
+Print Assumptions row_position_independent.
+
+Theorem reordering_rows_permutes_rows : forall ny nx own det labels labels',
+  Permutation labels labels' ->
+  Permutation (catalog_rows ny nx own det labels) (catalog_rows ny nx own det labels').
+Proof. exact rows_perm. Qed.
+Print Assumptions reordering_rows_permutes_rows.
+
+Theorem relabel_catalog_rows : forall ny nx own det labels pi, (forall a b, pi a = pi b -> a = b) ->
+  catalog_rows ny nx (relabel pi own) (option_map (relabel pi) det) (map pi labels) =
+  map (fun r => set_label (pi (r_label r)) r) (catalog_rows ny nx own det labels).
+Proof. exact relabel_catalog. Qed.
+Print Assumptions relabel_catalog_rows.
+
+(* a complete catalog: one row per distinct non-zero label, in increasing label order *)
+Theorem segmentation_labels_spec : forall ny nx seg v, In v (seg_labels ny nx seg) <->
+  v <> 0%Z /\ exists y x, y < ny /\ x < nx /\ seg y x = v.
+Proof. exact seg_labels_in. Qed.
+Print Assumptions segmentation_labels_spec.
+
+Theorem full_catalog_rows_in_label_order : forall ny nx own det,
+  StronglySorted Z.lt (map r_label (full_catalog_rows ny nx own det)).
+Proof. exact full_rows_sorted. Qed.
+Print Assumptions full_catalog_rows_in_label_order.
+
+(* renumbering the labels of a complete catalog permutes its rows (into the order of the new
+   numbers, by the previous theorem) and changes nothing but the label column *)
+Theorem full_catalog_relabel : forall ny nx own det pi,
+  (forall a b, pi a = pi b -> a = b) -> pi 0%Z = 0%Z ->
+  Permutation (full_catalog_rows ny nx (relabel pi own) (option_map (relabel pi) det))
+              (map (fun r => set_label (pi (r_label r)) r) (full_catalog_rows ny nx own det)).
+Proof. exact full_rows_relabel. Qed.
+Print Assumptions full_catalog_relabel.
+
+(* ------------------------------------------------------------------ *)
+(* D. a completely masked source yields NaN                             *)
+(* ------------------------------------------------------------------ *)
+Theorem all_masked_is_nan : forall ny nx own det l,
+  (forall p, In p (lab_pixels ny nx own l) -> maskat own p = true \/ dataat own p = None) ->
+  let r := mkrow ny nx own det l in
+  r_flux r = None /\ r_fluxerr2 r = None /\ r_min r = None /\ r_max r = None /\
+  r_cminidx r = None /\ r_cmaxidx r = None /\ r_minidx r = None /\ r_maxidx r = None /\
+  r_bkg_sum r = None /\ r_bkg_mean r = None.
+Proof. exact all_masked_own. Qed.
+Print Assumptions all_masked_is_nan.
+
+Theorem all_masked_area_is_nan : forall ny nx own det l,
+  (forall p, In p (lab_pixels ny nx det l) -> maskat det p = true \/ dataat det p = None) ->
+  r_area (mkrow ny nx own det l) = None.
+Proof. exact all_masked_det. Qed.
+Print Assumptions all_masked_area_is_nan.
+
+Theorem all_masked_centroid_is_nan : forall ny nx own det l,
+  (forall p, In p (lab_pixels ny nx det l) -> maskat det p = true) ->
+  let r := mkrow ny nx own det l in
+  r_cutout_centroid r = None /\ r_centroid r = None /\ r_covariance r = None.
+Proof. exact all_masked_moments. Qed.
+Print Assumptions all_masked_centroid_is_nan.
+
+(* and only then: one unmasked finite pixel makes the photometric quantities numbers *)
+Theorem measured_source_is_number : forall ny nx own det l p,
+  In p (lab_pixels ny nx own l) -> maskat own p = false -> dataat own p <> None ->
+  let r := mkrow ny nx own det l in
+  r_flux r <> None /\ r_min r <> None /\ r_max r <> None /\ r_minidx r <> None /\ r_maxidx r <> None.
+Proof. exact measured_is_number. Qed.
+Print Assumptions measured_source_is_number.
+
+(* ------------------------------------------------------------------ *)
+(* E. integer translation and axis transposition (cited by C03)         *)
+(* ------------------------------------------------------------------ *)
+(* [shift_row dy dx]: bbox, centroid, min/max index move by (dy, dx); every other column
+   (areas, fluxes, extrema, moments, cutout centroid, covariance, background) is unchanged *)
+Theorem catalog_row_shift : forall ny nx ny' nx' dy dx own own' det det' l,
+  shifted_on_label ny nx ny' nx' dy dx own own' l ->
+  shifted_on_label ny nx ny' nx' dy dx det det' l ->
+  lab_pixels ny nx own l <> [] -> lab_pixels ny nx det l <> [] ->
+  mkrow ny' nx' own' det' l = shift_row dy dx (mkrow ny nx own det l).
+Proof. exact row_shift_proof. Qed.
+Print Assumptions catalog_row_shift.
+
+(* [tr_row]: bbox and centroid swap their axes, moments M_pq -> M_qp, covariance
+   (sigx2, sigxy, sigy2) -> (sigy2, sigxy, sigx2) (orientation -> 90 deg - orientation), all
+   sums/areas/extremal values unchanged.  The first-occurrence extremum indices are erased on
+   both sides ([forget_idx]): with a tie the row-major first occurrence changes. *)
+Theorem catalog_row_transpose : forall ny nx own own' det det' l,
+  transposed_on_label ny nx own own' l -> transposed_on_label ny nx det det' l ->
+  forget_idx (mkrow nx ny own' det' l) = forget_idx (tr_row (mkrow ny nx own det l)).
+Proof. exact row_transpose_proof. Qed.
+Print Assumptions catalog_row_transpose.
+
+(* when the data values on S_l are pairwise distinct the four extremum indices transpose too *)
+Theorem catalog_row_transpose_indices : forall ny nx own own' det det' l,
+  transposed_on_label ny nx own own' l ->
+  (forall p q, In p (g_S (lab_pixels ny nx own l) (dataat own) (maskat own)) ->
+               In q (g_S (lab_pixels ny nx own l) (dataat own) (maskat own)) ->
+               dataat own p = dataat own q -> p = q) ->
+  let r := mkrow ny nx own det l in
+  let r' := mkrow nx ny own' det' l in
+  r_minidx r' = option_map swap_idx (r_minidx r) /\ r_maxidx r' = option_map swap_idx (r_maxidx r) /\
+  r_cminidx r' = option_map swap_idx (r_cminidx r) /\ r_cmaxidx r' = option_map swap_idx (r_cmaxidx r).
+Proof. exact row_transpose_idx_proof. Qed.
+Print Assumptions catalog_row_transpose_indices.
+
+(* the hypotheses are satisfiable for every input *)
+Theorem shift_hypothesis_satisfiable : forall ny nx dy dx py px I l, l <> 0%Z ->
+  shifted_on_label ny nx (ny + dy + py) (nx + dx + px) dy dx I (embed ny nx dy dx I) l.
+Proof. exact embed_is_shifted. Qed.
+Print Assumptions shift_hypothesis_satisfiable.
+Theorem transpose_hypothesis_satisfiable : forall ny nx I l,
+  transposed_on_label ny nx I (transpose_inputs I) l.
+Proof. exact transpose_is_transposed. Qed.
+Print Assumptions transpose_hypothesis_satisfiable.
+Theorem locality_hypothesis_satisfiable : forall ny nx I l, same_on_label ny nx I I l.
+Proof. exact same_on_label_refl. Qed.
+Print Assumptions locality_hypothesis_satisfiable.
+
+(* ------------------------------------------------------------------ *)
+(* concrete instances                                                   *)
+(* ------------------------------------------------------------------ *)
+(* 3 x 4 image, labels 7 and 2 share a bounding box; the NaN pixel and the masked pixel of
+   label 7 are left out; values are scaled by 4 *)
+Definition ex_seg : list (list Z) := [[7; 7; 2; 0]; [0; 7; 7; 0]; [0; 0; 7; 0]]%Z.
+Definition ex_data : limg :=
+  [[Some 8; Some 4; Some 100; Some 1]; [Some 1; None; Some 12; Some 1]; [Some 1; Some 1; Some 20; Some 1]]%Z.
+Definition ex_mask : list (list bool) :=
+  [[false; true; false; false]; [false; false; false; false]; [false; false; false; false]].
+Definition ex_in : inputs := mk_inputs ex_seg (ex_data, None, None, None, Some ex_mask).
+(* the same source with everything else changed: other label, data outside the label *)
+Definition ex_seg' : list (list Z) := [[7; 7; 0; 5]; [5; 7; 7; 0]; [0; 9; 7; 0]]%Z.
+Definition ex_data' : limg :=
+  [[Some 8; Some 4; None; Some 77]; [Some (-5); None; Some 12; None]; [Some 0; Some 3; Some 20; Some 9]]%Z.
+Definition ex_in' : inputs := mk_inputs ex_seg' (ex_data', None, None, None, Some ex_mask).
+
+Example ex_row :
+  let r := mkrow 3 4 ex_in ex_in 7%Z in
+  (r_bbox r, r_segment_area r, r_area r, r_flux r, r_min r, r_minidx r, r_max r, r_maxidx r, r_centroid r)
+  = ((0, 2, 0, 2), 5, Some 3, Some 40, Some 8, Some (0, 0), Some 20, Some (2, 2),
+     Some ((64, 40), (52, 40)))%Z.
+Proof. vm_compute. reflexivity. Qed.
+
+Example ex_local : mkrow 3 4 ex_in' ex_in' 7%Z = mkrow 3 4 ex_in ex_in 7%Z.
+Proof. vm_compute. reflexivity. Qed.
+
+(* a diagonal two-pixel source: exactly singular central-moment matrix, regularised once
+   (the unrepaired code returns NaN here when rounding makes the determinant negative) *)
+Example ex_collinear :
+  r_covariance (mkrow 2 2 (mk_inputs [[1; 0]; [0; 1]]%Z ([[Some 52; Some 0]; [Some 0; Some 139]]%Z, None, None, None, None))
+                          (mk_inputs [[1; 0]; [0; 1]]%Z ([[Some 52; Some 0]; [Some 0; Some 139]]%Z, None, None, None, None)) 1%Z)
+  <> None.
+Proof. vm_compute. discriminate. Qed.
+
+Example ex_labels : seg_labels 3 4 (get2 0%Z ex_seg') = [5; 7; 9]%Z.
+Proof. vm_compute. reflexivity. Qed.
